@@ -1125,8 +1125,11 @@ func assertListDelimiter(x any) (v string) {
 Delimiter returns the delimiter string value currently set
 within the receiver instance.
 */
-func (r Stack) Delimiter() string {
-	return r.stack.getListDelimiter()
+func (r Stack) Delimiter() (d string) {
+	if r.IsInit() {
+		d = r.stack.getListDelimiter()
+	}
+	return
 }
 
 /*
